@@ -1,0 +1,5 @@
+//go:build !verif
+
+package grammar
+
+func verifStep(cnt uint64, expr any, offset int) {}
